@@ -112,7 +112,7 @@ def analyze(ctx, want):
                             if ok:
                                 pv = argval(pushes[0], 1)
                                 fnf = p.calls(r"MultiPatternNfa::find_nfa$")
-                                ok = pv[0] == "tuple" and S.mentions(pv[1][0], lambda x: x == oi[0][4]) and "Nfa::terminal_id" in S.fstr(pv[1][1]) and bool(fnf) and S.fstr(fnf[0][3][1]) == S.fstr(tgt)
+                                ok = pv[0] == "tuple" and S.mentions(pv[1][0], lambda x: x == oi[0][4]) and "Nfa::terminal_id" in S.fstr(pv[1][1]) and bool(fnf) and S.fstr(fnf[0][3][1]) == S.fstr(tgt) and S.mentions(pv[1][1], lambda x: x == fnf[0][4])
                             ob("C02.d", "multi:accepting-state-labelled-with-the-terminal-of-the-owning-nfa", ok, "accepting_states.push(%s)" % (S.fstr(argval(pushes[0], 1))[:140] if pushes else None), fn.loc())
                         else:
                             acc_cases.add("already")
